@@ -4,5 +4,5 @@ From C21 Require Import C21Spec C21_gen C21_table C21ProofsTac.
 Import ListNotations.
 Local Open Scope R_scope.
 
-Lemma ortho_table_ok_1 : Forall (combo_ok ortho3d) (firstn 18 ortho_table).
-Proof. cbv [firstn skipn ortho_table]. table_tac. Qed.
+Lemma ortho_table_ok_1 : Forall (combo_ok ortho3d) (firstn 17 ortho_table_rest).
+Proof. cbv [firstn skipn ortho_table_rest]. table_tac. Qed.
